@@ -68,8 +68,8 @@ Proof. exact CompileCorrect4.step_aderef. Qed.
 Print Assumptions step_arrayref_deref.
 
 (* the image of an array cell is the recorded vector of its object *)
-Theorem array_cell_image : forall AF ftab TL FS cp m st h c a ar,
-  CompileCorrect4Rel.MS AF ftab TL FS cp m st h -> vrel m c a ->
+Theorem array_cell_image : forall AF ftab TL FS cp rc m st h c a ar,
+  CompileCorrect4Rel.MS AF ftab TL FS cp rc m st h -> vrel m c a ->
   nth_error (cells st) c = Some (CArr (Some ar)) ->
   exists l, nth_error h a = Some (HVec l) /\ In (ar, l) (mar m).
 Proof. exact CompileCorrect4Rel.vrel_arr. Qed.
